@@ -330,6 +330,14 @@ func classify(p cfgPath, v interface{}, ids map[string][]string) (f field, ok bo
 		case strings.HasSuffix(last, "_port"):
 			f.Values = append(f.Values, mutValue{Class: "bound", Value: 65535}, mutValue{Class: "bound+1", Value: 65536})
 		}
+		// Count-like properties that size a per-request or per-connection
+		// allocation also get a truly huge value (no real allocation can
+		// succeed; the question is whether it is rejected or panics).
+		switch g {
+		case "ratelimit.ipv4.count", "ratelimit.ipv6.count", "ratelimit.tcp.max_pipeline_count",
+			"interface_listeners.channel_buffer_size":
+			f.Values = append(f.Values, mutValue{Class: "2^62", Value: 1 << 62})
+		}
 		// drop values equal to the base
 		f.Values = dropBase(f.Values, v)
 		return f, true
@@ -424,7 +432,7 @@ func (m mutation) String() string {
 }
 
 func (m mutation) render() string {
-	if m.Kind == "struct" || m.Kind == "list" || m.Kind == "fault" {
+	if m.Kind == "struct" || m.Kind == "list" || m.Kind == "fault" || m.Kind == "history" {
 		return m.Path.String() + ": <" + m.Value.Class + ">"
 	}
 	if m.Value.Missing {
@@ -440,8 +448,8 @@ func applyMutations(root interface{}, ms []mutation, freePort int) interface{} {
 			out = structApply(out, m, freePort)
 			continue
 		}
-		if m.Kind == "fault" {
-			continue // environment, not the file
+		if m.Kind == "fault" || m.Kind == "history" {
+			continue // environment / run history, not the file
 		}
 		if m.Kind == "list" && m.Value.Class == "list-one" {
 			if cur, ok := treeGet(out, m.Path); ok {
@@ -934,4 +942,37 @@ func backendMatrixCases(root interface{}) (out [][]mutation) {
 		}
 	}
 	return out
+}
+
+// ---- restart from the profile cache ----------------------------------------------------------
+
+// restartCases: the base file, and the base with another accepted response size
+// estimate, run with the history "start, full profile sync, stop, start again
+// on the same profile cache".
+func restartCases(fields []field) (out [][]mutation) {
+	hist := mutation{Path: cfgPath{key("run"), key("history")}, Kind: "history", Value: mutValue{Class: "restart-from-profile-cache"}}
+	out = append(out, []mutation{hist})
+	for _, f := range fields {
+		if f.Path.generic() != "ratelimit.response_size_estimate" {
+			continue
+		}
+		for _, v := range f.Values {
+			// Not 1B: with a one-byte estimate every response counts as dozens
+			// of requests and the profile's own limit drops the script's
+			// queries by design.
+			if v.Class == "large" {
+				out = append(out, []mutation{{Path: f.Path, Kind: f.Kind, Value: v}, hist})
+			}
+		}
+	}
+	return out
+}
+
+func restartHistory(ms []mutation) bool {
+	for _, m := range ms {
+		if m.Kind == "history" {
+			return true
+		}
+	}
+	return false
 }
